@@ -48,6 +48,11 @@ def ops(n):
         ("plist-get", ["(setq pl (bpl %d nil))" % n, "(setq key (nth %d pl))" % (2 * n - 2)], "(plist-get pl key)", "OK %d" % (2 * n)),
         ("dolist", ["(setq big (build %d nil))" % n], "(let ((s 0)) (dolist (x big s) (setq s (+ s x))))", "OK %d" % (n * (n + 1) // 2)),
         ("discard", ["(setq big (build %d nil))" % n], "(progn (setq big nil) 'gone)", "OK y:gone"),
+        ("discard-record", ["(setq rec (list 'name 1 (build %d nil)))" % n], "(progn (setq rec nil) 'gone)", "OK y:gone"),
+        ("discard-alist", ["(setq al2 (list (cons 'a 1) (cons 'b (build %d nil)) (cons 'c (build %d nil))))" % (n, n)], "(progn (setq al2 'x) 'gone)", "OK y:gone"),
+        ("discard-let", [], "(let ((r (list 1 2 (build %d nil) (build %d nil)))) (length r))" % (n, n), "OK 4"),
+        ("discard-nested-ctx", ["(setq rec (list 'name (list 'inner (build %d nil))))" % n], "'kept", "OK y:kept"),
+        ("discard-arg", ["(defun drop2 (a b) 'dropped)"], "(drop2 (list 0 (build %d nil)) (cons 1 (cons 2 (build %d nil))))" % (n, n), "OK y:dropped"),
         ("discard-ctx", ["(setq big (build %d nil))" % n], "'kept", "OK y:kept"),
     ]
 
